@@ -38,6 +38,14 @@ inductive Stmt
   | bind (l : Var) (vs : List Var)
   /-- `dsts = gen.applymask(l, m, _)` -/
   | apply (dsts : List Var) (l : Var) (m : Var)
+  /-- `x[np.logical_not(m)] = np.nan` — the table `x` blanked in place where the mask `m` is
+      false (what `applymask` does to each element, written into the same object; a 2-D boolean
+      index on a 3-D table selects whole cells). Only the `logical_not` spelling: `x[~m]` is an
+      integer index for the 0/1 integer masks `HC_damp`/`HC_cov`/`HC_phi_comp` return. The
+      translator emits it only when no list still in use holds the object (value semantics here,
+      object semantics in Python). A `None` in `x` (absent covariance) is a `TypeError` in Python
+      and a stuck state here. -/
+  | blank (x : Var) (m : Var)
 deriving Repr, DecidableEq
 
 section Concrete
@@ -107,6 +115,10 @@ def cexec (S : Sem Idx Val) (e : CEnv Idx Val) : Stmt → Option (CEnv Idx Val)
     | some (.mask mk), some (.lst ts) =>
       if dsts.length = ts.length then some (setMany e dsts (ts.map (maskO mk))) else Option.none
     | _, _ => Option.none
+  | .blank x m =>
+    match e x, e m with
+    | some (.tbl t), some (.mask mk) => some (e.set x (.tbl (maskTbl mk t)))
+    | _, _ => Option.none
 
 def crun (S : Sem Idx Val) : CEnv Idx Val → List Stmt → Option (CEnv Idx Val)
   | e, [] => some e
@@ -173,6 +185,10 @@ def aexec (e : AEnv) : Stmt → Option AEnv
     match e.get m, e.get l with
     | some (.mask ms), some (.lst ts) =>
       if dsts.length = ts.length then some (aSetMany e dsts (ts.map (amaskO ms))) else Option.none
+    | _, _ => Option.none
+  | .blank x m =>
+    match e.get x, e.get m with
+    | some (.tbl o cs), some (.mask ms) => some (e.set x (.tbl o (ms ++ cs)))
     | _, _ => Option.none
 
 def arun : AEnv → List Stmt → Option AEnv
